@@ -308,6 +308,26 @@ def _run_once(case: dict, external: bool, deadline: float) -> dict:
     t0 = time.time()
     try:
         def go():
+            if case.get("start") is not None:
+                # the step is started from a vector that differs from the configured initial values (what a
+                # restart, a chained step or a nested optimization does): Plan / optimizer step / tracker directly
+                import numpy as np
+                from ropt.config.enopt import EnOptConfig
+                from ropt.plan import OptimizerContext, Plan
+                ctx = OptimizerContext(evaluator=rec.evaluator)
+                ctx.add_observer(EventType.START_EVALUATION, rec.on_start)
+                ctx.add_observer(EventType.FINISHED_EVALUATION, rec.on_finished)
+                plan = Plan(ctx)
+                step = plan.add_step("optimizer")
+                tracker = plan.add_handler("tracker", sources={step})
+                code = plan.run_step(step, config=EnOptConfig.model_validate(build_config(case, external)),
+                                     variables=np.array(case["start"], dtype=np.float64))
+                res = plan.get(tracker, "results")
+
+                class _Out:
+                    exit_code = code
+                    variables = None if res is None else res.evaluations.variables
+                return _Out
             opt = BasicOptimizer(build_config(case, external), rec.evaluator)
             opt._observers.append((EventType.START_EVALUATION, rec.on_start))
             opt._observers.append((EventType.FINISHED_EVALUATION, rec.on_finished))
@@ -617,7 +637,7 @@ def coq_case(case: dict, obs: dict) -> str:
     fields = [
         f"(JStr {cq.s(obs['cfg_digest'])})",
         cq.b(obs["cfg_roundtrip"]),
-        "(" + _zs(bits(v) for v in case["init"]) + ")%Z",
+        "(" + _zs(bits(v) for v in (case["start"] if case.get("start") is not None else case["init"])) + ")%Z",
         _trace_term(i["trace"]),
         end_t,
         "(" + _out_term(i["out"]) + ")%Z",
@@ -721,6 +741,7 @@ def features(case: dict, obs: dict) -> dict:
         "external_outcome": e["out"][0] + (":" + str(e["out"][1]) if e["out"][0] != "hang" else ""),
         "constraints": bool(case.get("ncon")) or case.get("lin") is not None,
         "mask": case.get("mask") is not None,
+        "explicit_start": case.get("start") is not None,
         "nan": bool(case.get("nan")),
         "abort_at": case.get("abort_at") is not None,
         "eval_raise_at": case.get("eval_raise_at") is not None,
@@ -793,6 +814,9 @@ def rand_base(rng, method: str | None = None, flavour: str | None = None) -> dic
         case["max_functions"] = rng.choice([2, 3, 4])
         if rng.random() < 0.3:
             case["options"] = {"maxiter": rng.choice([1, 2])}
+    if rng.random() < 0.4:
+        # started from another vector than the configured initial values (inside the bounds)
+        case["start"] = [v + rng.choice([-0.25, 0.125, 0.25, 0.375]) for v in case["init"]]
     flavour = flavour or rng.choice(["plain", "plain", "plain", "nan", "toofew", "abort", "evraise", "opterr"])
     case["flavour"] = flavour
     if flavour == "nan" and nreal >= 2:
